@@ -43,7 +43,42 @@ pub struct FnSig {
 }
 
 const PRIMS: [&str; 12] = ["bool", "u8", "i8", "u16", "i32", "u32", "i64", "u64", "usize", "f32", "f64", "char"];
-const NAMED: [&str; 3] = ["vnative::targets::Widget", "alloc::string::String", "std::path::Path"];
+// nominal types; 3<->4 and 5<->6 are *different* types that share their last path segment, 7 is a
+// user type that is merely *named* `bool`
+const NAMED: [&str; 8] = ["vnative::targets::Widget", "alloc::string::String", "std::path::Path", "core::fmt::Error", "std::io::error::Error", "app::small::Config", "app::large::inner::Config", "app::flags::bool"];
+
+fn homonym_of(i: u8) -> Option<u8> {
+    match i % 8 {
+        3 => Some(4),
+        4 => Some(3),
+        5 => Some(6),
+        6 => Some(5),
+        _ => None,
+    }
+}
+
+/// replaces the first nominal type that has a homonym (same last path segment, different path)
+fn swap_homonym(t: &Ty) -> Option<Ty> {
+    match t {
+        Ty::Named(i) => homonym_of(*i).map(Ty::Named),
+        Ty::Ref(x, m) => swap_homonym(x).map(|y| Ty::Ref(Box::new(y), *m)),
+        Ty::Ptr(x, m) => swap_homonym(x).map(|y| Ty::Ptr(Box::new(y), *m)),
+        Ty::Slice(x) => swap_homonym(x).map(|y| Ty::Slice(Box::new(y))),
+        Ty::Array(x, n) => swap_homonym(x).map(|y| Ty::Array(Box::new(y), *n)),
+        Ty::Opt(x) => swap_homonym(x).map(|y| Ty::Opt(Box::new(y))),
+        Ty::Tuple(v) => {
+            for (k, x) in v.iter().enumerate() {
+                if let Some(y) = swap_homonym(x) {
+                    let mut w = v.clone();
+                    w[k] = y;
+                    return Some(Ty::Tuple(w));
+                }
+            }
+            None
+        }
+        _ => None,
+    }
+}
 
 pub fn render_ty(t: &Ty) -> String {
     match t {
@@ -89,7 +124,7 @@ pub fn render_sig(s: &FnSig) -> String {
 }
 
 fn ty_strategy() -> impl Strategy<Value = Ty> {
-    let leaf = prop_oneof![4 => (0u8..12).prop_map(Ty::Prim), 1 => Just(Ty::Str), 1 => (0u8..3).prop_map(Ty::Named), 1 => Just(Ty::Unit)];
+    let leaf = prop_oneof![4 => (0u8..12).prop_map(Ty::Prim), 1 => Just(Ty::Str), 2 => (0u8..8).prop_map(Ty::Named), 1 => Just(Ty::Unit)];
     leaf.prop_recursive(3, 12, 4, |inner| {
         prop_oneof![
             3 => (inner.clone(), any::<bool>()).prop_map(|(t, m)| Ty::Ref(Box::new(t), m)),
@@ -105,7 +140,15 @@ fn ty_strategy() -> impl Strategy<Value = Ty> {
 }
 
 pub fn sig_strategy() -> impl Strategy<Value = FnSig> {
-    (prop::collection::vec(ty_strategy(), 0..=6), ty_strategy(), any::<bool>(), prop_oneof![3 => Just(0u8), 1 => Just(1u8), 1 => Just(2u8)]).prop_map(|(params, ret, unsafe_, abi)| FnSig { unsafe_: unsafe_ || abi != 0, abi, params, ret })
+    (prop::collection::vec(ty_strategy(), 0..=6), ty_strategy(), any::<bool>(), prop_oneof![3 => Just(0u8), 1 => Just(1u8), 1 => Just(2u8)], prop::option::weighted(0.3, (3u8..7, any::<bool>(), any::<u8>()))).prop_map(|(mut params, ret, unsafe_, abi, extra)| {
+        if let Some((n, by_ref, pos)) = extra {
+            let t = if by_ref { Ty::Ref(Box::new(Ty::Named(n)), false) } else { Ty::Named(n) };
+            let at = pos as usize % (params.len() + 1);
+            params.insert(at, t);
+            params.truncate(6);
+        }
+        FnSig { unsafe_: unsafe_ || abi != 0, abi, params, ret }
+    })
 }
 
 #[derive(Serialize, Deserialize, Clone, Debug, Hash, PartialEq, Eq)]
@@ -119,6 +162,8 @@ pub enum Mutation {
     FlipMut(u8),
     FlipUnsafe,
     ChangeAbi(u8),
+    /// one nominal type replaced by a *different* type with the same last path segment
+    SwapHomonym,
     /// replacement comes from the unchecked macros (empty signature) while the target is typed
     ReplacementUnchecked,
     /// target comes from when_called_unchecked while the replacement is typed
@@ -177,6 +222,22 @@ pub fn mutate(s: &FnSig, m: &Mutation) -> Option<FnSig> {
                 t.unsafe_ = false;
             } else {
                 t.unsafe_ = !t.unsafe_;
+            }
+        }
+        Mutation::SwapHomonym => {
+            let mut done = false;
+            for k in 0..t.params.len() {
+                if let Some(y) = swap_homonym(&t.params[k]) {
+                    t.params[k] = y;
+                    done = true;
+                    break;
+                }
+            }
+            if !done {
+                match swap_homonym(&t.ret) {
+                    Some(y) => t.ret = y,
+                    None => return None,
+                }
             }
         }
         Mutation::ChangeAbi(a) => {
@@ -345,6 +406,7 @@ fn mutation_strategy() -> impl Strategy<Value = Mutation> {
         3 => any::<u8>().prop_map(Mutation::FlipMut),
         2 => Just(Mutation::FlipUnsafe),
         2 => (0u8..3).prop_map(Mutation::ChangeAbi),
+        3 => Just(Mutation::SwapHomonym),
         1 => Just(Mutation::ReplacementUnchecked),
         1 => Just(Mutation::TargetUnchecked),
         1 => Just(Mutation::NullReplacement),
@@ -376,6 +438,7 @@ pub fn bool_case_strategy() -> impl Strategy<Value = BoolCase> {
         1 => Just(Ty::Array(Box::new(b()), 1)),
         1 => Just(Ty::Ref(Box::new(b()), false)),
         1 => Just(Ty::Ref(Box::new(fnbool(vec![], false, 0)), false)),
+        2 => Just(Ty::Named(7)),
         1 => Just(Ty::Unit),
         3 => ty_strategy(),
     ];
